@@ -230,6 +230,29 @@ func (c05) Run(c *Ctx, i int) CaseResult {
 	if c.Tier == "thorough" || c.Tier == "search" {
 		nsched = 33
 	}
+	if in.ListLen > 32 {
+		// long lists are not run under the schedule controller (one release at a time, hundreds of parked goroutines:
+		// minutes on a busy machine — a harness timeout there was a false alarm, see DESIGN 12.4d); they are repeated
+		// unscheduled, under the race detector, and compared with the first run
+		nsched = 0
+		for k := 0; k < 3; k++ {
+			f, err := NewFed(in.Spec, ref.Store)
+			if err != nil {
+				break
+			}
+			InstallFaults(f, in.Faults, 0)
+			out := runWith(f, in, 60*time.Second)
+			if out.Hung || out.Panicked != nil {
+				res.Fails = append(res.Fails, Failure{Channel: "hang", Classifier: "unclassified", What: fmt.Sprintf("a request with a list of %d entries: hung=%v panic=%v", in.ListLen, out.Hung, out.Panicked), Input: in})
+				return res
+			}
+			if got := Canon(out.Data); got != base || fmt.Sprint(errMultiset(out.Err)) != baseErrs {
+				res.Fails = append(res.Fails, Failure{Channel: "L0.schedule", Classifier: "unclassified",
+					What: fmt.Sprintf("repetition %d of a request with a list of %d entries gives another response than the first run", k, in.ListLen), Input: in, Expected: ref.Out.Data, Observed: out.Data})
+				return res
+			}
+		}
+	}
 	released, traced, inconclusive := 0, 0, 0
 	for k := 0; k < nsched; k++ {
 		policy := schedPolicies[k%len(schedPolicies)]
